@@ -35,3 +35,11 @@ Theorem C02_schedule_free : forall (G J O : Type) (step : G -> J -> G * O),
                 In (j, o2) (combine tr2 (run G J O step g tr2)) -> o1 = o2.
 Proof. exact schedule_free. Qed.
 Print Assumptions C02_schedule_free.
+
+From V Require Import Gen.SharedState Pipeline.SharedStateFacts.
+(* regenerated from /repo/src on every run: no static mut, no thread-local, no static or Linter field with interior
+   mutability, every rule is a unit struct -- the read-only-shared-state hypothesis of the two theorems above *)
+Theorem C02_no_shared_mutable_state :
+  forallb (fun it => mem (snd it) allowed_kinds) shared_items = true.
+Proof. exact no_shared_mutable_state. Qed.
+Print Assumptions C02_no_shared_mutable_state.
